@@ -347,10 +347,8 @@ func TestVerif_C15_messages(t *testing.T) {
 	}
 	// enumerated first: nested chains of every depth a 255-octet name allows (one-byte labels:
 	// name_k has k labels and is written as one label plus a pointer to name_(k-1))
+	// (not sharded: 126 cheap cases, and every shard then reports the same smallest failing depth)
 	for depth := 2; depth <= 127; depth++ {
-		if !vh.Mine(depth) {
-			continue
-		}
 		c := c15MsgCase{ID: uint16(depth), Flags: 0x8400, Nested: depth}
 		var n []vh.Hex
 		for k := 0; k < depth; k++ {
@@ -447,6 +445,35 @@ func c15TxtCheck(t vh.Fataler, rec *vh.Rec, c c15TxtCase) {
 	rec.Case(nontriv, vh.Digest(c), c, classes...)
 }
 
+// c15TxtFails is the oracle of c15TxtCheck without any recording (used to minimise).
+func c15TxtFails(n int) bool {
+	failed := false
+	if pan, _ := c15h.Catch(func() {
+		p := c15h.Expand(1, n)
+		enc := EncodeRDataTXT(p)
+		dec, err := DecodeRDataTXT(enc)
+		if err != nil || !bytes.Equal(dec, p) {
+			failed = true
+			return
+		}
+		m := &Message{Answer: []RR{{Name: Name{}, Type: RRTypeTXT, Class: ClassIN, Data: enc}}}
+		buf, werr := m.WireFormat()
+		if werr != nil {
+			return
+		}
+		m2, derr := MessageFromWireFormat(buf)
+		if derr != nil || len(m2.Answer) != 1 {
+			failed = true
+			return
+		}
+		back, terr := DecodeRDataTXT(m2.Answer[0].Data)
+		failed = terr != nil || !bytes.Equal(back, p)
+	}); pan {
+		return true
+	}
+	return failed
+}
+
 var c15TxtRequired = []string{"ok@0", "ok@255", "ok@256", "ok@510", "ok@511", "in-rr:ok", "in-rr:rejected", "in-rr:ok@65535"}
 
 func TestVerif_C15_txt_enum(t *testing.T) {
@@ -484,6 +511,9 @@ func TestVerif_C15_txt_enum(t *testing.T) {
 		c15TxtCheck(soft, rec, c15TxtCase{Len: l, Seed: 1})
 		if soft.Failed {
 			t.Fail()
+			// report the smallest failing length of this run (same result in every shard)
+			m := c15h.ShrinkLen(l, c15TxtFails)
+			c15TxtCheck(soft, rec, c15TxtCase{Len: m, Seed: 1})
 			break
 		}
 	}
